@@ -361,6 +361,9 @@ impl GrammarBuilder {
                 }
 
                 if let Some(ConstVal::String(kind)) = new_production.meta.remove("kind") {
+                    // Production kind is used in the names of generated types
+                    // and functions.
+                    self.check_identifier(&kind)?;
                     // Production kind names the production, its action and
                     // its AST type so it must be unique inside the rule.
                     if self.productions.iter().any(|p| {
